@@ -2,6 +2,6 @@ fn main() {
     let mut xot = xot::Xot::new();
     let src = std::env::args().nth(1).unwrap();
     let root = xot.parse(&src).unwrap();
-    let s = xot.serialize_xml_string(xot::output::xml::Parameters { indentation: Some(Default::default()), ..Default::default() }, root).unwrap();
+    let s = xot.html5().to_string(root).unwrap();
     println!("{}", s);
 }
